@@ -944,7 +944,17 @@ def r5_dispatch(ctx):
     yield Ob('validation:IsValidDataType[RD8] both halves must be valid', not bad_b, ctx.floc(fn), '' if not bad_b else bad_b[0])
 
 
+def r6_pure_recognisers(ctx):
+    """a recogniser answers for (string, type, character set, version) and nothing else: the validating modules keep no
+    module- or class-level object that a call fills, and remember no answer across calls (a memo keyed by less than all
+    four answers one version with another's verdict).  C15.R9 / C18.R2 (shared)."""
+    from . import c15
+    for o in c15.validator_keeps_no_state(ctx):
+        yield o
+
+
 RULES = [
+    Rule('C13.R6', 'shared with C15.R9/C18.R2: the recognisers keep no state and cache nothing across calls', r6_pure_recognisers, floor=8),
     Rule('C13.R1', 'regex constants equal the X12 value languages (DFA equivalence); wrappers and selector tables sound', r1_languages, floor=15),
     Rule('C13.R2', 'no exception can leave IsValidDataType (unpack arity, int(), explicit raises, indexing)', r2_never_raises, floor=6),
     Rule('C13.R3', 'field atoms: hour/minute/second/month/year/day bounds and the leap rule equal the calendar', r3_atoms, floor=15),
